@@ -249,7 +249,33 @@ def ternary(tree):
     return n
 
 
-KINDS = {"notwrap": notwrap, "reorder": reorder, "ternary": ternary, "rename": rename_locals, "logmsg": logmsg, "docpass": docpass, "noop": noop, "rettemp": rettemp, "ifflip": ifflip, "eqswap": eqswap}
+def condtemp(tree):
+    """`if <call or comparison>:` becomes `cond_ct = <...>; if cond_ct:` (explaining variable for a condition); elif tests are
+    left alone (they cannot be hoisted without changing evaluation order)"""
+    n = 0
+    for fn in [x for x in ast.walk(tree) if isinstance(x, (ast.FunctionDef, ast.AsyncFunctionDef))]:
+        k = 0
+        for holder in [fn] + list(_walk_scope(fn)):
+            for fld in ("body", "orelse", "finalbody"):
+                body = getattr(holder, fld, None)
+                if not (isinstance(body, list) and body and isinstance(body[0], ast.stmt)) or isinstance(holder, ast.ClassDef):
+                    continue
+                if fld == "orelse" and isinstance(holder, ast.If) and len(body) == 1 and isinstance(body[0], ast.If):
+                    continue  # an elif
+                new = []
+                for st in body:
+                    if isinstance(st, ast.If) and isinstance(st.test, (ast.Call, ast.Compare)) and not any(isinstance(x, (ast.NamedExpr, ast.Await, ast.Yield)) for x in ast.walk(st.test)):
+                        k += 1
+                        name = f"cond_ct{k}"
+                        new.append(ast.Assign([ast.Name(name, ast.Store())], st.test))
+                        st.test = ast.Name(name, ast.Load())
+                        n += 1
+                    new.append(st)
+                setattr(holder, fld, new)
+    return n
+
+
+KINDS = {"condtemp": condtemp, "notwrap": notwrap, "reorder": reorder, "ternary": ternary, "rename": rename_locals, "logmsg": logmsg, "docpass": docpass, "noop": noop, "rettemp": rettemp, "ifflip": ifflip, "eqswap": eqswap}
 
 
 def overlay_for(files, kind):
